@@ -50,9 +50,9 @@ def run(rep):
         kinds.append("DiGraph" if ("hypergraph_to_bipartite" in t or "nx.DiGraph(" in t) else "?")
     rep.ob("O19.1", "R5", asb, all(k == "DiGraph" for k in kinds) and bool(kinds), [norm(r.value)[:60] for r in rets],
            "_as_bipartite always returns a directed graph")
-    complex_vectors(rep, table)
-    formulas(rep)
-    definitions(rep)
+    rep.run(complex_vectors, table)
+    rep.run(formulas)
+    rep.run(definitions)
 
 
 def complex_vectors(rep, table):
